@@ -46,6 +46,8 @@ def run(tier):
         H.cookie_init(prog, rep, L)
         H.eol_scan(prog, rep)
         H.header_scan(prog, rep)
+        H.header_split(prog, rep)
+        H.chunk_framing(prog, rep)
         # the buffered reader under the decoder: header blocks and chunks larger than its initial buffer must still fit
         # (window invariant, growth and compaction tests; relational rules shared with C07)
         from . import c07
